@@ -144,7 +144,9 @@ def templates(tier="quick"):
     fops = standard_ops([v0, v1], {}, js=(1, 2), ks=(1,), edits_during=False, max_fault_stmts=1, with_rm=False)
     fops.append({"op": "write", "path": "b", "content": "edited by hand while the manifest did not claim it\n", "label": "b:=hand edit"})
     fb = next(i for i, o in enumerate(fops) if o["op"] == "ninja")
-    T.append(scenario("file_becomes_a_declared_output/built", "template", [v0, v1], ops=fops, init=[fb], depth=d, tags=["multi-output", "built"]))
+    # (history depth 3 in both tiers: one level deeper the alphabet reaches "the manifest claims b, a build, then the hand
+    # edit" -- editing a declared output by hand is outside the premises of C01, and the thorough tier reported it)
+    T.append(scenario("file_becomes_a_declared_output/built", "template", [v0, v1], ops=fops, init=[fb], depth=min(d, 3), tags=["multi-output", "built"]))
 
     # T9c statements all of whose outputs are implicit (`build | out.bin: ...`), with discovered dependencies
     for kind, kw in (("gcc", {"deps": "gcc"}), ("depfile", {"depfile": True})):
